@@ -812,7 +812,13 @@ def rule_r13(facts, col, rule_id="C08.R13"):
     for body in facts.impl_bodies(BLOCK_TRAIT, "work"):
         if body.from_derive:
             continue
-        slices = {bb: _wb_of(body.operand_expr(t["args"][0])) for bb, t in body.calls_to(WSLICE)}
+        slices = {}
+        for bb, t in body.calls_to(WSLICE):
+            we = body.operand_expr(t["args"][0])
+            # a window held in an Option (`if let Some(s) = clock { s.slice()[..] = ..}` ... `if let Some(s) = clock { s.produce(..) }`):
+            # write and commit are correlated through the variant, which a path rule does not see - not decided
+            optional = any(x.k == "downcast" and x.variant == "Some" for x in walk(we))
+            slices[bb] = None if optional else _wb_of(we)
         if not slices:
             continue
 
